@@ -27,7 +27,11 @@ GroupClauses(g) ==
   \cup Flag(Len(sel) <= g.nbest * nm, "C14_more_than_n_best")
   \cup Flag(C14Uncorrelated(C.a, sel, g.thr, Tol) \/ nm > 1, "C14_returned_features_too_associated")
   \* (with colsample < 1 the features are first screened in random halves: omissions are not determined by the data)
-  \cup Flag(g.sampled \/ \A k \in 1..nm : C14Omitted(g.mrefs[k], C.a, sel, feats, g.thr, g.nbest, Tol), "C14_omitted_without_reason")
+  \* several measures evaluated together: a feature for which one of them is undefined is out for all of them (the library
+  \* drops the rows of its association table that hold a missing value)
+  \cup Flag(g.sampled \/ \A k \in 1..nm :
+                LET mk == [f \in DOMAIN g.mrefs[k] |-> IF \E j \in 1..nm : g.mrefs[j][f] = UNDEF THEN UNDEF ELSE g.mrefs[k][f]]
+                IN  C14Omitted(mk, C.a, sel, feats, g.thr, g.nbest, Tol), "C14_omitted_without_reason")
   \cup Flag(\A k \in 1..nm : \A f \in feats :
                g.mcodes[k][f] = UNDEF \/ g.mrefs[k][f] = UNDEF
                \/ Abs(g.mcodes[k][f] - g.mrefs[k][f]) <= Tol + g.mrefs[k][f] \div 100000,
